@@ -211,6 +211,13 @@ Theorem C16_action_contract_partial : forall ops,
 Proof. exact action_contract_partial. Qed.
 Print Assumptions C16_action_contract_partial.
 
+(** model_satisfies_monitor, action store, all op sequences: the model never departs from
+    the full contract while the calls so far satisfy the guard. *)
+Theorem C16_action_model_never_diverges_in_guard : forall ops,
+  a_div_in_guard 0 [] (trace astep ainit ops) true = None.
+Proof. exact action_model_never_diverges_in_guard. Qed.
+Print Assumptions C16_action_model_never_diverges_in_guard.
+
 Theorem C16_action_single_prevote : forall ops1 ops2 k h r bh sig k' bh' sig',
   guarded_ops (ops1 ++ ASavePV k h r bh sig :: ops2 ++ [ASavePV k' h r bh' sig']) ->
   snd (astep (run astep ainit ops1) (ASavePV k h r bh sig)) = AOk ->
